@@ -49,6 +49,8 @@ func (t *c19Topics) apply(op c19Op, step int) {
 		t.s.Insert([]byte(op.Key), []byte(fmt.Sprintf("%s=%d", op.Key, step)))
 	case 'r':
 		t.s.Remove([]byte(op.Key))
+	case 'e':
+		t.s.Insert([]byte(op.Key), []byte{}) // a zero-length (non-nil) value: "no value" by the stores' own convention
 	}
 }
 func (t *c19Topics) query(key string) [][]byte {
@@ -91,6 +93,8 @@ func (t *c19Subs) apply(op c19Op, step int) {
 		})
 	case 'c':
 		t.s.Upsert([]byte(op.Key), func([]byte) []byte { return nil })
+	case 'z':
+		t.s.Upsert([]byte(op.Key), func([]byte) []byte { return []byte{} })
 	}
 }
 func (t *c19Subs) query(key string) [][]byte {
@@ -134,7 +138,7 @@ func c19Model(ops []c19Op) map[string]string {
 			} else {
 				m[op.Key] = fmt.Sprintf("%s=%d", op.Key, step)
 			}
-		case 'r', 'c':
+		case 'r', 'c', 'e', 'z':
 			delete(m, op.Key)
 		}
 	}
@@ -240,7 +244,7 @@ func c19HasEmptyLevel(ops []c19Op) bool {
 }
 
 func runC19(c *fw.Ctx) {
-	c.Rule = "every history of <=L operations over the key set {a, a/b, a/b/c, a/c, b} (L=4 quick; 6 retained store / 5 subscription index thorough) x every position of a Dump->Load round trip into a fresh store (and none), enumerated completely; plus seeded histories of 8-20 operations over key sets with empty levels (a, a/, a//b, /a) and, for the subscription index, wildcard filters (a/+, a/#) checked through Iterate; after the history every key is point-queried (Match/Walk), Iterate and Count are compared with map[string][]byte. distinct = (store, history, dump position); non-trivial = the history touches >=2 different keys or re-touches a key, i.e. length >=2"
+	c.Rule = "every history of <=L operations over the key set {a, a/b, a/b/c, a/c, b} (L=4 quick; 6 retained store / 5 subscription index thorough) x every position of a Dump->Load round trip into a fresh store (and none), enumerated completely; plus seeded histories of 8-20 operations over key sets with empty levels (a, a/, a//b, /a) and, for the subscription index, wildcard filters (a/+, a/#) checked through Iterate, and histories that also store zero-length (non-nil) values, which both stores treat as 'no value' (point queries, Iterate and Count must agree on that); after the history every key is point-queried (Match/Walk), Iterate and Count are compared with map[string][]byte. distinct = (store, history, dump position); non-trivial = the history touches >=2 different keys or re-touches a key, i.e. length >=2"
 	c.Assume("values are opaque non-empty byte strings; an empty value means 'absent' in both stores by design")
 	c.Assume("the Insert return flag and Remove's error value are not compared (they feed statistics only)")
 	keys := []string{"a", "a/b", "a/b/c", "a/c", "b"}
@@ -321,6 +325,7 @@ func runC19(c *fw.Ctx) {
 	}{
 		{"empty-level", []string{"a", "a/", "a//b", "/a", "a/b", "/"}, true, []int{0, 1}},
 		{"wildcard-filter-keys", []string{"a", "a/+", "a/#", "a/b", "+", "#", "+/b"}, false, []int{1}},
+		{"empty-value", []string{"a", "a/b", "b"}, true, []int{0, 1}},
 	}
 	for si, set := range sets {
 		for _, ki := range set.stores {
@@ -334,8 +339,12 @@ func runC19(c *fw.Ctx) {
 					for i := w; i < n; i += workers {
 						L := 2 + rng.Intn(10)
 						ops := make([]c19Op, L)
+						opKinds := sk.kinds
+						if set.name == "empty-value" {
+							opKinds = append(append([]byte{}, sk.kinds...), map[string]byte{"topics": 'e', "subscriptions": 'z'}[sk.name])
+						}
 						for j := range ops {
-							ops[j] = c19Op{sk.kinds[rng.Intn(len(sk.kinds))], set.keys[rng.Intn(len(set.keys))]}
+							ops[j] = c19Op{opKinds[rng.Intn(len(opKinds))], set.keys[rng.Intn(len(set.keys))]}
 						}
 						dumpAt := rng.Intn(L+2) - 1
 						f := c19RunHistory(sk.mk, ops, dumpAt, set.keys, set.point)
